@@ -381,6 +381,11 @@ DKind(prog, m, v, rt, fuel) ==
   ELSE
   CASE v.k = "int"  -> Recast(prog, KInt, rt)
     [] v.k = "str"  -> Recast(prog, KStr, rt)
+    [] v.k = "struct" ->                                      \* a literal that gives the field: {"f": fv}
+         IF ~IsStructRoot(prog, rt) THEN KBad
+         ELSE LET sdef == prog.ty[rt.key]  sm == ModOf(rt.key)
+                  fk == DKind(prog, m, v.fv, TrueRootRef(prog, sm, sdef.fty, 8), fuel - 1)
+              IN IF fk = KBad THEN KBad ELSE <<"struct", rt.key>>
     [] v.k \in {"map", "emap"} ->
          IF ~IsStructRoot(prog, rt) THEN KBad
          ELSE LET sdef == prog.ty[rt.key]  sm == ModOf(rt.key)
@@ -480,7 +485,7 @@ AllFinals(prog) == Finals(prog, InitStore(prog), WalkOrderOf(prog), "types", Ste
 RefTargets(prog, m, ref) == LET r == IF ref.q = "list" THEN ElemRef(ref) ELSE ref IN
                             IF r.q \in {"base", "none"} THEN {} ELSE {<<"t", RefKey(prog, m, r)>>}
 RECURSIVE CValTargets(_, _, _)
-CValTargets(prog, m, v) == IF v.k = "list" THEN CValTargets(prog, m, v.fv) ELSE IF v.k # "ref" THEN {}
+CValTargets(prog, m, v) == IF v.k \in {"list", "struct"} THEN CValTargets(prog, m, v.fv) ELSE IF v.k # "ref" THEN {}
                      ELSE IF v.q = "" THEN {<<"c", Key(m, v.n)>>}
                      ELSE IF CLocalDot(prog, m, v.q, v.n) THEN {<<"c", Key(m, Dot(v.q, v.n))>>}
                      ELSE {<<"c", Key(v.q, v.n)>>, <<"t", Key(m, v.q)>>}
